@@ -63,9 +63,23 @@ def step (s : St) (fs : List String) : St × String :=
       | _, _, _ => (s, "bad-op")
   | ["token", ord, ns, kind, pats] => match ord.toNat?, parseHex? ns, parsePats? pats with
       | some ord, some ns, some pats =>
-        if kind ≠ "root" ∧ kind ≠ "p" then (s, "bad-op") else
+        -- kind "none": a token none of whose policy names resolves in its namespace (no patterns)
+        if kind ≠ "root" ∧ kind ≠ "p" ∧ kind ≠ "none" then (s, "bad-op") else
         ({ s with toks := s.toks ++ [{ ord, ns, isRoot := kind = "root", pats }] }, "ok")
       | _, _, _ => (s, "bad-op")
+  | ["aliascase"] => (s, "ok")
+  | ["aliastoken", nsB, nsA] =>
+      -- auth/token/create in namespace B naming the policy "../<uuid of namespace A>/p": policy names are looked up under
+      -- the token's namespace by their exact name (`C12Gen.cache_key_injective`), B's policy view has no such key and
+      -- refuses the relative name: the creation is refused
+      match parseHex? nsB, parseHex? nsA with
+      | some _, some _ => (s, "refused")
+      | _, _ => (s, "bad-op")
+  | ["aliasread", nsB, nsA] =>
+      -- (only reached when the token exists:) none of its policy names is defined in ITS namespace — it grants nothing
+      match parseHex? nsB, parseHex? nsA with
+      | some _, some _ => (s, "denied")
+      | _, _ => (s, "bad-op")
   | ["req", tok, ctx, hdr, path, op, skey] =>
       match tok.toNat?, parseHex? hdr, parseHex? path, parseOp? op, parseHex? skey with
       | some tok, some hdr, some path, some op, some skey =>
